@@ -14,7 +14,11 @@ RULE = ("histories of parse requests on ONE DefaultArgsParser.  Pool of requests
         "format: base levels, command names, groups) and C02's (a single-fault mutation, a token soup); every line strict and "
         "lenient.  All histories of length 1-2 over the pool, with format objects built per request and with one object per format "
         "(quick; thorough adds length 3 over the 41 original requests), seeded random to length 6, a third of them through two+ "
-        "CommandConfig objects sharing one parser via set_args_parser / Command.parse.  Each result compared with a fresh parser's; "
+        "CommandConfig objects sharing one parser via set_args_parser / Command.parse, half of those with a leniency setting per "
+        "configuration and a third of their requests NOT SAYING a mode (Command.parse(raw): the configuration decides, whatever "
+        "earlier requests named).  Formats 5 and 6 are twins of format 1 in everything but the DEFAULTS.  Each result compared with "
+        "a fresh parser's AND with what a process answers that has imported the library and never parsed anything (one forked "
+        "child per distinct request; a history that differs anywhere is run again on its own in such a child and judged there); "
         "argv list, RawArgs tokens/option_tokens/script name/text and the format's listings (own and base chain, aliases, command "
         "options) snapshotted before/after; every Args returned is read again at the end of the history.  Next to that the state-"
         "taking model of Props/C05.v (parse_obj: the maps reset at entry are a parameter) is compared with the real body of parse() "
@@ -22,6 +26,9 @@ RULE = ("histories of parse requests on ONE DefaultArgsParser.  Pool of requests
         "requests on it + random to length 6): model and code must leak alike.  Non-trivial = >= 2 "
         "requests of which >= 1 sets an option; distinct by history")
 TRUSTED = ["'does not alter the list / raw arguments / format it was handed' is about Python aliasing: carried by snapshot comparison (testing)",
+           "the reference 'what a fresh parser gives' is taken in a forked child of a process that only imported clikit (os.fork in the "
+           "worker): state outside the parser object - module, class, format / option objects - shows as "
+           "'result-differs-from-a-process-that-never-parsed-anything'",
            "harness/translate_c05.py: the model's parse starts from empty scratch maps because the source of DefaultArgsParser.parse "
            "assigns fresh OrderedDicts to self._arguments and self._options before anything else (AST check, re-run by every C05 check)"]
 ASSUMPTIONS = ["exhaustive to length 2 (quick) / 3 over the 41 original requests (thorough), not the 6 of the quantifier; lengths 3..6 are sampled"]
